@@ -90,7 +90,7 @@ def run_case(case, ctx):
 
     def same(have, w):
         if exact:
-            return lib.same(R, have, w, exact=True)
+            return lib.same(R, have, w, exact=True, trunc=False)
         return close2(lib.have_value(R, have), lib.want_value(R, w), 1e-9, 1e-12)
 
     def entry(K, i, j):
